@@ -14,6 +14,7 @@ import (
 	"fmt"
 	"net/http"
 	"net/url"
+	"path/filepath"
 	"strings"
 	"sync"
 	"time"
@@ -128,6 +129,13 @@ func (s *ServerHandler) ServeHTTPWithUrlCtx(resp http.ResponseWriter, req *http.
 
 	ri := PathStrategy.GetRequestInfo(urlCtx, s.outPath)
 	//Log.Debugf("%+v", ri)
+
+	// 注意，流名称是从url中解析出来的（比如`..-1-2.ts`解析出的流名称是`..`），需要确保最终要读取的文件在hls输出目录内
+	if rel, relErr := filepath.Rel(s.outPath, ri.FileNameWithPath); ri.FileNameWithPath != "" && (relErr != nil || rel == ".." || strings.HasPrefix(rel, ".."+string(filepath.Separator))) {
+		Log.Warnf("invalid hls request, file out of hls out path. url=%+v, request=%+v", urlCtx, ri)
+		resp.WriteHeader(http.StatusNotFound)
+		return
+	}
 
 	if filename == "" || (filetype != "m3u8" && filetype != "ts") || ri.StreamName == "" || ri.FileNameWithPath == "" {
 		err = errors.New(fmt.Sprintf("invalid hls request. url=%+v, request=%+v", urlCtx, ri))
